@@ -4,7 +4,7 @@ import ast
 from ..core.model import AnchorError, FuncInfo
 from ..core.cfg import walk_shallow, cfg_of
 from ..core.facts import U, atoms_of, atom_expr
-from ..engine import fn_name, kwarg, local_defs, returns_of, stmts_in, const_str
+from ..engine import fn_name, kwarg, local_defs, returns_of, stmts_in, const_str, vars_assigned_from
 from ..kinds import cursor as K
 from . import common
 
@@ -367,7 +367,9 @@ def s7(ctx, rep):
         if fn is f and isinstance(n, ast.Assign):
             v = n.value
             defs = local_defs(f, v.id) if isinstance(v, ast.Name) else [v]
-            ok = any(not isinstance(d, tuple) and "result[" in U(d) and "resource_attr" in U(d) for d in defs)
+            ra = ["self.resource_attr"] + vars_assigned_from(f, lambda e: U(e) == "self.resource_attr")
+            ok = any(not isinstance(d, tuple) and any(isinstance(y, ast.Subscript) and U(y.value) == "result" and U(y.slice) in ra
+                                                       for y in ast.walk(d)) for d in defs)
     rep.put(ok, "S7", "agreement", "_BlackboxSimulatorBackend._pause_trial: paused level taken from result[resource_attr]", f, None, "")
     g = c.methods["_run_job_and_collect_results"]
     cfg = cfg_of(g)
@@ -383,8 +385,11 @@ def s7(ctx, rep):
            if isinstance(x, ast.Call) and fn_name(x) == "append" and U(x.func.value) == rv]
     if not app:
         raise AnchorError("_BlackboxSimulatorBackend._run_job_and_collect_results: append to the returned list not found")
+    ra = ["self.resource_attr"] + vars_assigned_from(g, lambda e: U(e) == "self.resource_attr")
+    lv = vars_assigned_from(g, lambda e: isinstance(e, ast.Call) and fn_name(e) == "int" and e.args and isinstance(e.args[0], ast.Subscript)
+                            and U(e.args[0].slice) in ra)
     for nid, x in app:
-        ok = ctx.has_fact(g, nid, lambda a: a[0] == "lt" and a[1] == pv and "resource" in a[2])
+        ok = ctx.has_fact(g, nid, lambda a: a[0] == "lt" and a[1] == pv and a[2] in lv)
         rep.put(ok, "S7", "guarded_by", "_BlackboxSimulatorBackend._run_job_and_collect_results: keep level | level > paused level",
                 g, x, "a resumed run reports strictly after the level it was paused at",
                 "a resumed run may report the paused level (or earlier ones) again")
